@@ -13,6 +13,7 @@ import Mahotas.Proofs.C17Odd
 import Mahotas.Proofs.C17Mem
 import Mahotas.Proofs.C17Center
 import Mahotas.Proofs.C17Round
+import Mahotas.Proofs.C17RoundTrip
 import Mathlib.Algebra.Order.Ring.Rat
 namespace Mahotas.C17
 open Mahotas
@@ -634,6 +635,126 @@ example : energy 4 4 (daubechies2 ([3 / 5, 6 / 5, 2 / 5, -1 / 5] : List ℚ) 4 4
       (fun y x => if y = 2 ∧ x = 2 then 1 else 0)) = 4 ∧
     energy 4 4 (fun y x => if y = 2 ∧ x = 2 then (1 : ℚ) else 0) = 1 := by
   constructor <;> decide +kernel
+
+/-! ## Round 4 — the kernels in rounded (floating-point) arithmetic (`Proofs/C17RoundTrip.lean`) -/
+
+namespace Mahotas.C17
+/-- proved allowance for the rounding of the **double** evaluation of `idaubechies(daubechies f)` with the ten generated
+    tables (relative to `max|f|`): `C⁴·((1+u)^(8n+4) − 1)` at `u = 2⁻⁵³`, `C = Σ|c_k|`, see `C17_tables_rounded_bound` -/
+def tableRoundTol : List Rat :=
+  [4 / 100000000000000, 13 / 100000000000000, 28 / 100000000000000, 37 / 100000000000000, 60 / 100000000000000,
+   103 / 100000000000000, 136 / 100000000000000, 125 / 100000000000000, 200 / 100000000000000, 299 / 100000000000000]
+end Mahotas.C17
+
+/-- **C17-T6 (one row, rounded arithmetic).** `RT.RV K fl` is the ordered field `K` in which every `+ − × ÷` is followed
+by the rounding function `fl` (negation and the literals `0`, `2` are exact) — the polymorphic row kernels `waveletRow`,
+`iwaveletRow` instantiated there perform the operations of the C loops in the C loops' order (`acc += c·d` per tap,
+`(l + h)/2`), each one rounded. Under the standard model of floating-point arithmetic `|fl x − x| ≤ u·|x|` (IEEE
+round-to-nearest without under/overflow: `u = 2⁻⁵³` for double, `2⁻²⁴` for float), for **every** coefficient list with an
+even number `n ≥ 2` of entries (exactly representable values), every even `N`, every row with `|f| ≤ M`:
+(i) each analysis sample is within `((1+u)^(2n) − 1)·C·M` of the exact one, (ii) each synthesis sample within
+`((1+u)^(2n+2) − 1)·C·G` (`|g| ≤ G`), (iii) the rounded round trip satisfies
+`|ĩw(w̃ f)[x] − f[x]| ≤ (errConst cs + C²·((1+u)^(4n+2) − 1))·M` at every `n − 2 ≤ x < N`, `C = Σ|c_k|`. -/
+theorem C17_rounded_round_trip_row {K : Type} [Field K] [LinearOrder K] [IsStrictOrderedRing K] (fl : K → K) (u : K)
+    (hu : 0 ≤ u) (hfl : ∀ x, |fl x - x| ≤ u * |x|) (cs : List K) (N : Nat) (f : Nat → K) (M : K) (hM : 0 ≤ M)
+    (hf : ∀ p, p < N → |f p| ≤ M) :
+    (∀ k, |(waveletRow (cs.map (RT.ex (fl := fl))) N (fun q => RT.ex (f q)) k).v - waveletRow cs N f k|
+      ≤ RT.gam u cs.length * (RT.absSum cs * M)) ∧
+    (∀ x, |(iwaveletRow (cs.map (RT.ex (fl := fl))) N (fun q => RT.ex (f q)) x).v - iwaveletRow cs N f x|
+      ≤ RT.gam u (cs.length + 1) * (RT.absSum cs * M)) ∧
+    (cs.length % 2 = 0 → 2 ≤ cs.length → N % 2 = 0 → ∀ x, cs.length ≤ x + 2 → x < N →
+      |(iwaveletRow (cs.map (RT.ex (fl := fl))) N
+          (waveletRow (cs.map (RT.ex (fl := fl))) N (fun q => RT.ex (f q))) x).v - f x|
+        ≤ (errConst cs + RT.absSum cs ^ 2 * RT.gam u (2 * cs.length + 1)) * M) :=
+  ⟨fun k => RT.wavelet_round hu hfl cs N f M hM hf k,
+   fun x => RT.iwavelet_round hu hfl cs N f M hM hf x,
+   fun heven hpos hN x hx hxN => RT.round_trip_round hu hfl cs heven hpos N hN f M hM hf x hx hxN⟩
+
+/-- **C17-T6 (`idaubechies(daubechies f)` in rounded arithmetic).** The whole 2-D pipeline (`daubechies2`: rows, columns;
+`idaubechies2`: columns, rows) evaluated in `RT.RV K fl` — every operation of the four passes rounded, in the order the
+code performs them. For every coefficient list with an even number `n ≥ 2` of entries and **no** other hypothesis, every
+even-sided image with `|f| ≤ M`: the rounded result is within `C⁴·((1+u)^(8n+4) − 1)·M` of the exact pipeline at **every**
+pixel, hence within `((2d + d²) + C⁴·((1+u)^(8n+4) − 1))·M` of `f` at every pixel with `y, x ≥ n − 2`
+(`d = errConst cs`: the quadrature-mirror residuals; the second term: the rounding). `RT.gam u k = (1+u)^(2k) − 1`. -/
+theorem C17_rounded_reconstruction_bound {K : Type} [Field K] [LinearOrder K] [IsStrictOrderedRing K] (fl : K → K)
+    (u : K) (hu : 0 ≤ u) (hfl : ∀ x, |fl x - x| ≤ u * |x|) (cs : List K) (heven : cs.length % 2 = 0)
+    (hpos : 2 ≤ cs.length) (N0 N1 : Nat) (h0 : N0 % 2 = 0) (h1 : N1 % 2 = 0) (f : Im K) (M : K) (hM : 0 ≤ M)
+    (hf : ∀ y x, y < N0 → x < N1 → |f y x| ≤ M) :
+    (∀ y x, |(idaubechies2 (cs.map (RT.ex (fl := fl))) N0 N1
+          (daubechies2 (cs.map (RT.ex (fl := fl))) N0 N1 (fun y x => RT.ex (f y x))) y x).v
+        - idaubechies2 cs N0 N1 (daubechies2 cs N0 N1 f) y x|
+        ≤ RT.gam u (4 * cs.length + 2) * (RT.absSum cs ^ 4 * M)) ∧
+    (∀ y x, cs.length ≤ y + 2 → y < N0 → cs.length ≤ x + 2 → x < N1 →
+      |(idaubechies2 (cs.map (RT.ex (fl := fl))) N0 N1
+          (daubechies2 (cs.map (RT.ex (fl := fl))) N0 N1 (fun y x => RT.ex (f y x))) y x).v - f y x|
+        ≤ ((2 * errConst cs + errConst cs ^ 2) + RT.absSum cs ^ 4 * RT.gam u (4 * cs.length + 2)) * M) := by
+  have hfw := fun y x => RT.forward_2d hu hfl cs N0 N1 f M hM hf y x
+  refine ⟨hfw, ?_⟩
+  intro y x hy hyN hx hxN
+  have hex := (C17_reconstruction_error_bound_general cs heven hpos N0 N1 h0 h1 f M hM hf y x hy hyN hx hxN).1
+  have e : (idaubechies2 (cs.map (RT.ex (fl := fl))) N0 N1
+      (daubechies2 (cs.map (RT.ex (fl := fl))) N0 N1 (fun y x => RT.ex (f y x))) y x).v - f y x =
+      ((idaubechies2 (cs.map (RT.ex (fl := fl))) N0 N1
+        (daubechies2 (cs.map (RT.ex (fl := fl))) N0 N1 (fun y x => RT.ex (f y x))) y x).v
+        - idaubechies2 cs N0 N1 (daubechies2 cs N0 N1 f) y x) +
+      (idaubechies2 cs N0 N1 (daubechies2 cs N0 N1 f) y x - f y x) := by ring
+  rw [e]
+  refine le_trans (abs_add_le _ _) ?_
+  have := hfw y x
+  nlinarith
+
+/-- the rounding constants of the generated tables at `u = 2⁻⁵³`, exact rational arithmetic -/
+theorem tables_round_consts :
+    (List.range 10).all (fun code =>
+      decide (RT.absSum (coeffsOf code : List ℚ) ^ 4 *
+        RT.gam (1 / 9007199254740992 : ℚ) (4 * (coeffsOf code : List ℚ).length + 2)
+        ≤ tableRoundTol.getD code 0)) = true := by decide +kernel
+
+/-- **C17-T6 (the ten generated tables, double arithmetic).** For each table `D2 … D20` (the float32 values the compiler
+stores, exactly representable in double), any rounding function on ℚ with `|fl x − x| ≤ 2⁻⁵³·|x|`, every even-sided
+rational image (every double image is one) with `|f| ≤ M`, at every pixel with `y, x ≥ ncoeffs − 2`: the result of
+`idaubechies(daubechies f)` computed with every operation rounded is within
+`(tableTol[code] + tableRoundTol[code])·M` of `f`, `tableRoundTol = (4, 13, 28, 37, 60, 103, 136, 125, 200, 299)·10⁻¹⁴` —
+the formerly unproved rounding allowance of the correspondence run (it used `1e-12`). Underflow is outside the model. -/
+theorem C17_tables_rounded_bound (fl : ℚ → ℚ) (hfl : ∀ x, |fl x - x| ≤ (1 / 9007199254740992 : ℚ) * |x|)
+    (code : Nat) (hc : code < 10) (N0 N1 : Nat) (h0 : N0 % 2 = 0) (h1 : N1 % 2 = 0)
+    (f : Im ℚ) (M : ℚ) (hM : 0 ≤ M) (hf : ∀ y x, y < N0 → x < N1 → |f y x| ≤ M)
+    (y x : Nat) (hy : 2 * (code + 1) ≤ y + 2) (hyN : y < N0) (hx : 2 * (code + 1) ≤ x + 2) (hxN : x < N1) :
+    |(idaubechies2 ((coeffsOf code : List ℚ).map (RT.ex (fl := fl))) N0 N1
+        (daubechies2 ((coeffsOf code : List ℚ).map (RT.ex (fl := fl))) N0 N1 (fun y x => RT.ex (f y x))) y x).v - f y x|
+      ≤ (tableTol.getD code 0 + tableRoundTol.getD code 0) * M := by
+  have h := List.all_eq_true.mp tables_consts code (List.mem_range.mpr hc)
+  simp only [Bool.and_eq_true, decide_eq_true_eq] at h
+  obtain ⟨hlen, htol⟩ := h
+  have hr := List.all_eq_true.mp tables_round_consts code (List.mem_range.mpr hc)
+  simp only [decide_eq_true_eq] at hr
+  have hb := (C17_rounded_reconstruction_bound fl (1 / 9007199254740992 : ℚ) (by norm_num) hfl
+    (coeffsOf code : List ℚ) (by rw [hlen]; omega) (by rw [hlen]; omega) N0 N1 h0 h1 f M hM hf).2 y x
+    (by rw [hlen]; exact hy) hyN (by rw [hlen]; exact hx) hxN
+  refine le_trans hb (mul_le_mul_of_nonneg_right ?_ hM)
+  linarith
+
+namespace Mahotas.C17
+/-- a rounding function that is not the identity: `x ↦ x·(1 + 2⁻⁵³)` meets the model with equality -/
+def exampleFl : ℚ → ℚ := fun x => x * (1 + 1 / 9007199254740992)
+end Mahotas.C17
+
+/-- non-vacuity: under `exampleFl` the rounded low-pass sample of the row `(1, 2, 3, 4)` with the exact four-tap filter
+differs from the exact sample `−1/5·1 + 2/5·2 + 6/5·3 + 3/5·4 = 33/5` and stays inside the proved band -/
+example :
+    (∀ x : ℚ, |exampleFl x - x| ≤ (1 / 9007199254740992 : ℚ) * |x|) ∧
+    waveletRow ([3 / 5, 6 / 5, 2 / 5, -1 / 5] : List ℚ) 4 (fun p => ([1, 2, 3, 4] : List ℚ).getD p 0) 0 = 33 / 5 ∧
+    (waveletRow (([3 / 5, 6 / 5, 2 / 5, -1 / 5] : List ℚ).map (RT.ex (fl := exampleFl))) 4
+      (fun q => RT.ex (([1, 2, 3, 4] : List ℚ).getD q 0)) 0).v ≠ 33 / 5 ∧
+    |(waveletRow (([3 / 5, 6 / 5, 2 / 5, -1 / 5] : List ℚ).map (RT.ex (fl := exampleFl))) 4
+      (fun q => RT.ex (([1, 2, 3, 4] : List ℚ).getD q 0)) 0).v - 33 / 5|
+      ≤ RT.gam (1 / 9007199254740992 : ℚ) 4 * (RT.absSum ([3 / 5, 6 / 5, 2 / 5, -1 / 5] : List ℚ) * 4) := by
+  refine ⟨?_, by decide +kernel, by decide +kernel, by decide +kernel⟩
+  intro x
+  have : exampleFl x - x = (1 / 9007199254740992 : ℚ) * x := by unfold exampleFl; ring
+  rw [this, abs_mul]
+  norm_num
+
 
 
 /-! ## Round 4: odd sides, the strided memory the C code works on, every border -/
